@@ -241,7 +241,8 @@ func (rr *refRun) faultRun(h, to uint32, f c10Fault, wantProbe bool) c10Result {
 	}
 	res := c10Result{dumps: map[uint32]canon.Dump{}}
 	node := fake.NewNode(rr.b.Chain)
-	d, err := drive.Open(dir+"/db", node, nil, rr.wal)
+	// a clone of the uninterrupted node at h-1 (no start-up code); only a death is followed by a real restart
+	d, err := drive.Continue(dir+"/db", node, nil, rr.wal)
 	if err != nil {
 		panic("harness: open ckpt: " + err.Error())
 	}
